@@ -14,6 +14,8 @@ Record psnap := mkPsnap {
   ps_rtyp : Z;
   ps_rnet : Z;
   ps_raddr : addr;
+  ps_rtcp : Z;
+  ps_rrel : option (Z * Z);
   ps_state : Z;
   ps_nominated : bool;
   ps_nom_on_succ : bool;
@@ -34,6 +36,7 @@ Record rsnap := mkRsnap {
   rs_net : Z;
   rs_addr : addr;
   rs_tcp : Z;
+  rs_rel : option (Z * Z);
   rs_prio : Z;
   rs_age : option Z
 }.
@@ -54,6 +57,9 @@ Record snap := mkSnap {
   sn_next_pair : Z;
   sn_lufrag : Z;
   sn_rufrag : Z;
+  sn_lpwd : Z;
+  sn_rpwd : Z;
+  sn_closed : bool;
   sn_pending : list qsnap;
   sn_locals : list Z;
   sn_remotes : list rsnap;
@@ -65,7 +71,7 @@ Record snap := mkSnap {
 }.
 
 Definition psnap_of (p : pair) : psnap :=
-  mkPsnap (p_id p) (c_h (p_loc p)) (c_typ (p_rem p)) (c_net (p_rem p)) (c_addr (p_rem p))
+  mkPsnap (p_id p) (c_h (p_loc p)) (c_typ (p_rem p)) (c_net (p_rem p)) (c_addr (p_rem p)) (c_tcp (p_rem p)) (c_rel (p_rem p))
           (p_state p) (p_nominated p) (p_nom_on_succ p) (p_reqcount p) (pair_priority p) (p_ctl p)
           (p_req_sent p) (p_req_recv p) (p_resp_sent p) (p_resp_recv p)
           (p_pkts_sent p) (p_bytes_sent p) (p_pkts_recv p) (p_bytes_recv p).
@@ -73,7 +79,7 @@ Definition psnap_of (p : pair) : psnap :=
 Definition age_units (now ts : Z) : Z := (now - ts) / grid.
 
 Definition rsnap_of (s : state) (c : cand) : rsnap :=
-  mkRsnap (c_typ c) (c_net c) (c_addr c) (c_tcp c) (c_prio c)
+  mkRsnap (c_typ c) (c_net c) (c_addr c) (c_tcp c) (c_rel c) (c_prio c)
           (match assoc_get (c_h c) (s_lastrecv s) with
            | Some t => Some (age_units (s_now s) t)
            | None => None
@@ -86,7 +92,7 @@ Definition snap_of_state (s : state) : snap :=
   mkSnap (s_conn s) (s_ctl s) (s_selected s)
          (if s_ctl s then match s_nominated s with Some p => Some (p_id p) | None => None end else None)
          (if s_ctl s then None else s_last_nom s)
-         (s_next_pair s) (s_lufrag s) (s_rufrag s)
+         (s_next_pair s) (s_lufrag s) (s_rufrag s) (s_lpwd s) (s_rpwd s) (s_closed s)
          (map (qsnap_of s) (s_pending s))
          (map c_h (s_locals s))
          (map (rsnap_of s) (s_remotes s))
